@@ -80,6 +80,18 @@ def run_job(job, res):
             ctx.assume(z3.And(ka == kb, a.term != b.term))
             w2[j], w2[j + 1] = b, a
         holder.update(w=body, w2=w2)
+        # the weight of the affected digit(s) in the rearranged number is 10^(expanded width of what follows); with
+        # digit-or-letter positions that width is symbolic.  Case-split on it (digits = 1, letters = 2) so that the
+        # weights are concrete in every query: for BBAN positions the suffix after the affected characters, for the
+        # check digits (which move behind the BBAN) the whole BBAN.
+        first = j if kind == "sub" else j
+        tail_from = 2 if first < 2 or (kind == "swap" and j == 1) else (j + 1 if kind == "sub" else j + 2)
+        ws = [z3.If(c.guards[0], 1, 2) for c in body[tail_from:] if len(c.classes) > 1]
+        if (kind == "sub" and j < 2) or (kind == "swap" and j == 0):
+            ws = []  # only the check digits change: their weights (10, 1) do not depend on the BBAN
+        if ws:
+            W = z3.Sum(ws)
+            ctx.choose_n([W == v for v in range(len(ws), 2 * len(ws) + 1)])
         pre = [ord(cc[0]), ord(cc[1])]
         IBAN(H.symstr(pre + body))  # must be accepted; rejecting paths end here
         r = H_try(lambda: IBAN(H.symstr(pre + w2)))
